@@ -195,6 +195,29 @@ func c14ExecR(in []string) []string {
 	if err != nil {
 		return []string{"CREATEERR"}
 	}
+	// the same media type in another legal spelling (parameters, letter case, blank before ';'): what a
+	// server parses out of it is the same
+	if ct := req.Header.Get("Content-Type"); (mtype == "1" || mtype == "2") && ct != "" && (len(pid)+len(fk))%3 == 1 {
+		mt, rest, _ := strings.Cut(ct, ";")
+		switch len(fv) % 3 {
+		case 0:
+			ct = mt + "; charset=UTF-8"
+			if rest != "" {
+				ct = mt + ";" + rest + "; charset=UTF-8"
+			}
+		case 1:
+			ct = strings.ToUpper(mt[:1]) + mt[1:]
+			if rest != "" {
+				ct += " ;" + rest
+			}
+		default:
+			ct = strings.ToUpper(mt)
+			if rest != "" {
+				ct += ";" + rest
+			}
+		}
+		req.Header.Set("Content-Type", ct)
+	}
 	// --- wire
 	var wire bytes.Buffer
 	if err := req.Write(&wire); err != nil {
